@@ -242,7 +242,7 @@ package yqlib
 //@   ensures implies(istype(value, int), result.Tag == "!!int")
 
 //@ func (*CandidateNode).doCopy
-//@   props C02 C03 C07 C16 C11
+//@   props C02 C03 C07 C16 C11 C04
 //@   requires n != nil
 //@   ensures @fresh-copy result != nil && fresh(result) && sameScalarAttrs(result, n) && result.IsMapKey == n.IsMapKey && result.Parent == n.Parent
 //@   ensures @key-copied {C02,C03,C07,C16} implies(n.Key == nil, result.Key == nil) && implies(n.Key != nil, result.Key != nil && fresh(result.Key) && result.Key.Value == n.Key.Value && result.Key.Tag == n.Key.Tag && result.Key.Kind == n.Key.Kind)
@@ -251,7 +251,7 @@ package yqlib
 //@   ensures @children-fresh forall(i, 0, len(result.Content), result.Content[i] != nil && fresh(result.Content[i]) && result.Content[i].Parent == result)
 
 //@ func (*CandidateNode).Copy
-//@   props C02 C03 C07 C16 C11
+//@   props C02 C03 C07 C16 C11 C04
 //@   requires n != nil
 //@   ensures @fresh-copy result != nil && fresh(result) && sameScalarAttrs(result, n) && result.IsMapKey == n.IsMapKey && result.Parent == n.Parent
 //@   ensures @key-copied {C02,C03,C07,C16} implies(n.Key == nil, result.Key == nil) && implies(n.Key != nil, result.Key != nil && fresh(result.Key) && result.Key.Value == n.Key.Value && result.Key.Tag == n.Key.Tag && result.Key.Kind == n.Key.Kind)
@@ -280,7 +280,7 @@ package yqlib
 //@   ensures @a-sequence-element-is-keyed-by-its-position {C03,C16} implies(n.Kind == SequenceNode, v.Key.Value == itoa(n0))
 
 //@ func (*CandidateNode).AddKeyValueChild
-//@   props C02 C03 C07 C16 C11
+//@   props C02 C03 C07 C16 C11 C04
 //@   let n0 = len(old(n.Content))
 //@   requires n != nil && rawKey != nil && rawValue != nil
 //@   modifies n.Content
@@ -2001,3 +2001,91 @@ package yqlib
 //@   loop 1:
 //@     invariant 0 <= px && px <= len(pattern) && 0 <= nx && nx <= len(name) && 0 <= nextPx && nextPx <= len(pattern)
 //@     invariant @no-restart-point-without-a-star implies(plainPattern(pattern), px == nx && nextNx == 0 && name[0:nx] == pattern[0:px])
+
+// operator_unique.go: the de-duplicated sequence owns copies of the surviving elements (C16: their parent is the
+// new sequence, and writing through them does not reach the source array), and the key expression is evaluated
+// read-only on one element at a time (C01, C08)
+//@ func uniqueBy
+//@   props C16 C01 C08
+//@   nosafety
+//@   nopre
+//@   noframe
+//@   overlay
+//@   at GetMatchingNodes: assert @the-key-of-an-element-is-computed-read-only-on-that-element {C01,C08} arg1.DontAutoCreate && len(arg1.MatchingNodes) == 1 && nodeAt(arg1.MatchingNodes, 0) == child && arg2 == expressionNode.RHS
+//@   at PushBack: assert @a-container-that-owns-its-children {C16} arg1 == iface(resultNode) && ownsItsChildren(resultNode)
+//@   loop 3:
+//@     invariant @owned-so-far ownsItsChildren(resultNode)
+
+// operators.go, operator_equals.go: `==` and `!=` answer with a new boolean that says whether the two values are
+// equal, `!=` being the negation of `==` on every pair, also when one side produced nothing (C01). A missing side
+// equals null and nothing else; null equals null only; two scalars are equal when the right text, read as a
+// pattern, matches the left (for a text without `*` and `?`: when the texts are the same).
+//@ func createBooleanCandidate
+//@   props C01 C11
+//@   requires owner != nil
+//@   ensures @a-new-boolean-saying-so result != nil && fresh(result) && result.Kind == ScalarNode && result.Tag == "!!bool" && (result.Value == "true") == value && (result.Value == "false") == !value
+
+//@ func isEquals$1
+//@   props C01 C11
+//@   modifies \nothing
+//@   ensures @not-equals-is-the-negation-of-equals {C01} result1 == nil && result0 != nil && fresh(result0) && result0.Tag == "!!bool" && (result0.Value == "true") == ((ite(lhs == nil && rhs == nil, true, ite(lhs == nil, rhs.Tag == "!!null", ite(rhs == nil, lhs.Tag == "!!null", ite(lhs.Tag == "!!null", rhs.Tag == "!!null", ite(lhs.Kind == ScalarNode && rhs.Kind == ScalarNode, ite(plainPattern(rhs.Value), lhs.Value == rhs.Value, resultOf(matchKey)), false)))))) != flip) && (result0.Value == "false") == ((ite(lhs == nil && rhs == nil, true, ite(lhs == nil, rhs.Tag == "!!null", ite(rhs == nil, lhs.Tag == "!!null", ite(lhs.Tag == "!!null", rhs.Tag == "!!null", ite(lhs.Kind == ScalarNode && rhs.Kind == ScalarNode, ite(plainPattern(rhs.Value), lhs.Value == rhs.Value, resultOf(matchKey)), false)))))) == flip)
+//@   at matchKey: assert @the-texts-are-compared {C01} arg0 == lhs.Value && arg1 == rhs.Value
+
+// encoder_json.go: the raw text of a node is written only for a scalar when unwrapping was asked for (-r);
+// every other node goes through the JSON library's Encode, which calls MarshalJSON (C06: what is printed with
+// -o=json is JSON; a number spelt 0x1F, a string, .inf are never written as they stand)
+//@ func (*jsonEncoder).Encode
+//@   props C06
+//@   nosafety
+//@   nopre
+//@   noframe
+//@   at writeString: assert @raw-text-only-for-an-unwrapped-scalar {C06} node.Kind == ScalarNode && je.prefs.UnwrapScalar
+//@   at Encode: assert @the-node-itself-is-given-to-the-JSON-library {C06} arg1 == iface(node)
+//@   at return: assert @nothing-is-printed-any-other-way {C06} calls(writeString) + calls(Encode) >= 1
+
+// operator_anchors_aliases.go: explode(e) explodes every node e selects, one call of explodeNode per selected
+// node, in order (C13: explode removes every alias and merge key — none of the selected nodes is passed over)
+//@ func explodeOperator
+//@   props C13
+//@   nosafety
+//@   nopre
+//@   noframe
+//@   at explodeNode: assert @the-node-the-expression-selected {C13} arg0 == nodeAt(rhs.MatchingNodes, elIdx(childEl))
+//@   loop 2:
+//@     invariant @every-selected-node-so-far-was-exploded {C13} callsHere(explodeNode) == iter() && ((childEl == nil && iter() == len(rhs.MatchingNodes)) || (childEl != nil && elList(childEl) == rhs.MatchingNodes && elIdx(childEl) == iter()))
+
+// operator_subtract.go: array - array keeps an element of the left array unless it equals some element of the
+// right one: every left element is compared with the right elements one after the other, from the first on,
+// none skipped, and is dropped only when a comparison said "equal" (C01; `p -= e` computes this very value, C02)
+//@ func subtractArray
+//@   props C01 C02 C11
+//@   requires lhs != nil && rhs != nil
+//@   assume @children-non-nil-everywhere allnodes(m, kidsOK(m))
+//@   modifies \nothing
+//@   ensures @no-more-than-the-left-array-had len(result) <= len(lhs.Content)
+//@   at recursiveNodeEqual: assert @a-left-element-is-compared-with-a-right-element {C01,C02} arg0 == lhs.Content[lindex] && arg1 == rhs.Content[rindex]
+//@   loop 1:
+//@     invariant 0 <= lindex && lindex <= len(lhs.Content) && len(newLHSArray) <= lindex
+//@   loop 2:
+//@     invariant @compared-with-every-right-element-so-far {C01,C02} 0 <= rindex && rindex <= len(rhs.Content) && callsHere(recursiveNodeEqual) == rindex && implies(!shouldInclude, rindex > 0 && resultOf(recursiveNodeEqual)) && implies(shouldInclude && rindex > 0, !resultOf(recursiveNodeEqual))
+
+//@ func subtract
+//@   props C01 C02 C11
+//@   nopre
+//@   noframe
+//@   requires lhs != nil && rhs != nil
+//@   at subtractArray: assert @the-two-arrays-as-given {C01,C02} arg0 == lhs && arg1 == rhs
+//@   at return: assert @the-difference-of-two-arrays-is-what-subtractArray-computed {C01,C02} implies(result1 == nil && old(lhs.Tag) != "!!null" && old(lhs.Kind) == SequenceNode, calls(subtractArray) == 1 && result0 != nil && result0.Content == resultOf(subtractArray))
+
+// encoder_shellvariables.go: the NAME half of -o=shell (C17). The mapping keeps letters, digits and the underscore,
+// drops what is not printable ASCII and turns the rest into underscores; the name built from a key is then made
+// of those characters only, and the name of a root key starts with a letter or an underscore (a `_` is put in
+// front when it would not). A name built by appending to a name is a name.
+//@ func appendPath$1
+//@   props C17 C11
+//@   ensures @a-name-character-or-dropped result == 0 - 1 || isAlnumUnderscore(result)
+
+//@ func appendPath
+//@   props C17 C11
+//@   ensures @a-root-key-gives-a-name {C17} implies(cookedPath == "", shellName(result))
+//@   ensures @appending-to-a-name-gives-a-name {C17} implies(shellName(cookedPath), shellName(result))
